@@ -533,3 +533,7 @@ mod test {
         }
     }
 }
+
+#[cfg(any(kani, libtw2_verif))]
+#[path = "/verif/kani/huffman.rs"]
+mod verif_kani;
